@@ -1179,7 +1179,7 @@ fn do_astar(c: &mut Ctx, s: u64, t: u64, costs: &BTreeMap<u64, i128>, dir: Direc
     }
 }
 
-/// find_all_paths (all shortest paths): oracle only.
+/// find_all_paths (all shortest paths): compared with the model (same paths, same order) + oracle.
 fn do_all_paths(c: &mut Ctx, s: u64, t: u64) {
     let g = c.g;
     let tag = c.tag.clone();
@@ -1831,7 +1831,7 @@ fn main() {
         let plan = plan_graph(&mut gen, if i % 4 == 3 { 1 } else { 0 }, true);
         run_graph(&plan, &mut m, &mut rep, &mut qr, &budget);
     }
-    rep.note("A*, find_all_paths and the algorithm family (components, SCC, spanning forest, core numbers, triangles, articulation points) have no Lean model: the engine is compared with independent harness-side reference implementations only (Spec section of Paths/Spec.lean gives the definitions they compute)");
+    rep.note("A*, find_all_weighted_paths and the algorithm family (components, SCC, spanning forest, core numbers, triangles, articulation points, bridges) have no Lean model: the engine is compared with independent harness-side reference implementations only (Spec section of Paths/Spec.lean gives the definitions they compute)");
     rep.note("graphs with a negative weight are outside the property's quantifier: find_weighted_path is only compared with the model there (error/early-exit behaviour)");
     rep.note("weights are integers (Int or integer-valued Float properties) with path sums < 2^53, on which the engine's f64 arithmetic is exact");
     rep.write(&args.out);
